@@ -28,6 +28,7 @@ CONSTANTS
   TrampFlushed = TRUE
   Regen = TRUE
   SavedFrom = "install"
+  VerifierStep = "first"
   RestoreMayFail = FALSE
   LockByHand = FALSE
   ForeignReuse = FALSE
@@ -37,5 +38,5 @@ CONSTANTS
   MaxCtr = 2
 CONSTRAINT Bound
 INVARIANT TypeOK Restored LatestWins NoWildAtUser OnlyNamed Mutex HolderIsLock NoAbort Reusable IdleClean NoLeak FreeOnce FlushedAtUser NoFault NoSelfDeadlock WX
-PROPERTY FreshCount RefusedUntouched
+PROPERTY FreshCount RefusedUntouched ResetBeforeLive
 CHECK_DEADLOCK FALSE
